@@ -11,7 +11,7 @@ TRUSTED = ["Coq 8.16.1 kernel + vm_compute", "tools/tr_escapers.py (complete tab
            "planted runs and nesting are tested with oracles on generated documents (planted reserved characters in every text position)"]
 FORMATS = ["html", "latex", "beamer", "memoir", "fodt", "opml"]
 VISIBLE_ONCE = {"paragraph", "heading", "list item", "table cell", "link text", "footnote", "nested footnote", "code span", "code block",
-                "block quote", "definition", "strong", "emphasis"}
+                "block quote", "definition", "strong", "emphasis", "citation locator"}
 LATEX_TOK = {"&": [r"\&"], "%": [r"\%"], "#": [r"\#"], "{": [r"\{"], "}": [r"\}"], "$": [r"\$"], "~": [r"\ensuremath{\sim}", r"\textasciitilde{}"],
              "^": [r"\^{}", r"\textasciicircum{}"], "a_b": [r"a\_b"], "a\\b": [r"a\textbackslash{}b"], "<": ["<", "$<$"], ">": [">", "$>$"],
              '"': ["''", '"', "``"], "'": ["'", "`"], "&amp;": [r"\&"], "AT&T": [r"AT\&T"], "1<2": ["1<2", "1$<$2"], "x>y": ["x>y", "x$>$y"]}
@@ -36,6 +36,9 @@ def xml_text(b):
 def latex_balanced(s):
     """None if environments and braces nest properly (verbatim bodies skipped), else a message"""
     s = re.sub(r"\\begin\{(verbatim|lstlisting)\}.*?\\end\{\1\}", "", s, flags=re.S)
+    if "\\begin{document}" not in s:
+        # a complete document opens the document environment in an \input file (mmd6-*-begin) and closes it itself
+        s = s.replace("\\end{document}", "")
     stack = []
     for m in re.finditer(r"\\(begin|end)\{([^}]*)\}", s):
         if m.group(1) == "begin": stack.append(m.group(2))
@@ -67,7 +70,8 @@ def check_doc(src, plants, results):
             bad.append(("impl-crash", "conversion to %s failed: %s" % (r.fmt, (r.stderr or r.raw)[:200]))); continue
         out = r.out.decode("utf-8", "replace")
         if r.fmt in ("html", "fodt", "opml"):
-            doc = r.out if r.fmt != "html" else b"<root>" + r.out.replace(b"&nbsp;", b"&#160;") + b"</root>"
+            # (a complete HTML document starts with a doctype line, which cannot stand inside the wrapper element)
+            doc = r.out if r.fmt != "html" else b"<root>" + re.sub(rb"^<!DOCTYPE html>\n", b"", r.out).replace(b"&nbsp;", b"&#160;") + b"</root>"
             text, err = xml_text(doc)
             if err:
                 bad.append(("not-nested:%s" % r.fmt, "%s output does not parse (markup not properly nested or reserved character unescaped): %s" % (r.fmt, err))); continue
@@ -89,6 +93,19 @@ def check_doc(src, plants, results):
                         rest = rest.replace(esc, "")
                     if re.search(r"[&%#$_{}~^\\]", rest):
                         bad.append(("unescaped:%s:fence language" % r.fmt, "%s: the language of a code fence is printed with unescaped reserved characters: source %r, output %r" % (r.fmt, run, val)))
+                continue
+            if pos == "metadata value":
+                # a value may be printed several times (title, header fields) or not at all (keys the format has no use for);
+                # wherever it is printed its reserved characters are escaped: the XML formats were parsed above, for LaTeX
+                # every occurrence is followed by the escaped tokens
+                if r.fmt in ("latex", "beamer", "memoir") and n:
+                    toks = run.split(" ")[1:]
+                    alts = ["(?:" + "|".join(re.escape(a) for a in LATEX_TOK[t]) + ")" if t in LATEX_TOK else re.escape(t) for t in toks]
+                    rx = re.compile(re.escape(marker) + r"\s+" + r"\s+".join(alts))
+                    for m in re.finditer(re.escape(marker), hay):
+                        if not rx.match(hay, m.start()):
+                            bad.append(("unescaped:%s:metadata value" % r.fmt, "%s: a metadata value is printed with unescaped reserved characters: source %r, output %r" % (r.fmt, run, hay[m.start():m.start() + 100])))
+                            break
                 continue
             if pos in VISIBLE_ONCE and n != 1 and not (r.fmt == "opml"):
                 bad.append(("text-%s:%s:%s" % ("lost" if n == 0 else "repeated", r.fmt, pos), "%s: text planted in %s appears %d times (marker %s)" % (r.fmt, pos, n, marker)))
@@ -153,12 +170,23 @@ def run(rep, tier, seed):
     for src, pl in docs:
         for kind, what in check_doc(src, pl, byd[src.encode("utf-8")]):
             bad.append((kind, what, src, pl))
+    # the same with a metadata block (complete documents: the values go into the header of every format)
+    mdocs = [planted.document(rng, meta=True) for _ in range(80 if tier == "quick" else 2000)]
+    mjobs = [(src.encode("utf-8"), f, tchk.EXT["notes"], 0) for src, pl in mdocs for f in FORMATS]
+    mres = tchk.convert(mjobs)
+    byd = collections.defaultdict(list)
+    for r in mres:
+        byd[r.doc].append(r)
+    for src, pl in mdocs:
+        for kind, what in check_doc(src, pl, byd[src.encode("utf-8")]):
+            bad.append((kind, what, src, pl))
+    jobs = jobs + mjobs; docs = docs + mdocs
     rep.cov["evaluations"] = len(cases) + len(jobs)
     rep.cov["traces_validated_against_impl"] = ncorr
     rep.cov["planted_runs"] = sum(len(pl) for s, pl in docs)
     rep.cov["distinct_nontrivial"] = len(set(s for s, pl in docs))
     rep.cov["rule"] = ("planted documents: a unique marker word + reserved tokens in every text position (paragraph, heading, list item, table cell, link text/title, "
-                       "URL, image alt/title, footnote incl. nested, code span/block, quote, definition, emphasis) x 6 textual formats; oracles: XML parse (nesting + "
+                       "URL, image alt/title, footnote incl. nested, code span/block, quote, definition, emphasis, citation locator; and, in complete documents, metadata values) x 6 textual formats; oracles: XML parse (nesting + "
                        "escaping), LaTeX environment/brace balance, marker exactly once, run reproduced / escaped as expected; plus string-printer correspondence")
     rep.cov["position_histogram"] = dict(collections.Counter(p for s, pl in docs for p, m, r in pl))
     rep.cov["samples"] = [dict(doc=docs[0][0][:300])]
